@@ -313,7 +313,7 @@ def _gen_str(draw, spec, mut):
         v = fill[:off] + sub + fill[off:]
     if near and mut.take(draw, "str:near"):
         cands = [v + "a", v[:-1] if v else "a", v[1:] if v else "b", None, 0, list(v),
-                 v.encode("utf-8"), v.upper() if v.upper() != v else v + "Z", v + "Ж",
+                 v.encode("utf-8"), v.upper() if v.upper() != v else v + "Z", v + "Ж", v + "\n", v + "\n",
                  "Ж" + v, Zoo("str_subclass")]
         lf = spec.get("len")
         if lf is not None:
